@@ -15,6 +15,8 @@ package cert
 //@   ensures [quorum] result == nil && !isGenesisHash(qc.hash) ==> qc.signature != nil && hotstuff.setlen(hotstuff.parts(qc.signature)) >= quorum(c)
 //@   ensures [content] result == nil && !isGenesisHash(qc.hash) ==> has(c.blockchain.blocks, qc.hash) && (forall id hotstuff.ID :: hotstuff.setmem(hotstuff.parts(qc.signature), id) ==> crypto.sigvalid(c.Base, qc.signature, id, hotstuff.blockcontent(c.blockchain.blocks[qc.hash])))
 //@   ensures [view-bound] result == nil && !isGenesisHash(qc.hash) ==> c.blockchain.blocks[qc.hash].view == qc.view
+//@   ensures [genesis-view] result == nil && isGenesisHash(qc.hash) ==> qc.view == hotstuff.genesisBlock.view
+//@   ensures [qcok] result == nil ==> qcok(c, qc)
 //@   ensures [inv] blockchain.binv(c.blockchain) && blockchain.bmaps(c.blockchain)
 //@   modifies c.blockchain.blocks[*], c.blockchain.blockAtHeight[*], c.blockchain.pendingFetch[*], c.blockchain.eventLoop.handlers[*], alloc
 
@@ -34,7 +36,7 @@ package cert
 
 // A QC satisfies qcok when it is the genesis QC or carries a quorum of valid signatures over
 // the stored block it names, which has the view the QC claims.
-//@ pred qcok(c *Authority, qc hotstuff.QuorumCert) = isGenesisHash(qc.hash) || (qc.signature != nil && hotstuff.setlen(hotstuff.parts(qc.signature)) >= quorum(c) && has(c.blockchain.blocks, qc.hash) && c.blockchain.blocks[qc.hash].view == qc.view && (forall id hotstuff.ID :: hotstuff.setmem(hotstuff.parts(qc.signature), id) ==> crypto.sigvalid(c.Base, qc.signature, id, hotstuff.blockcontent(c.blockchain.blocks[qc.hash]))))
+//@ pred qcok(c *Authority, qc hotstuff.QuorumCert) = (isGenesisHash(qc.hash) && qc.view == hotstuff.genesisBlock.view) || (!isGenesisHash(qc.hash) && qc.signature != nil && hotstuff.setlen(hotstuff.parts(qc.signature)) >= quorum(c) && has(c.blockchain.blocks, qc.hash) && c.blockchain.blocks[qc.hash].view == qc.view && (forall id hotstuff.ID :: hotstuff.setmem(hotstuff.parts(qc.signature), id) ==> crypto.sigvalid(c.Base, qc.signature, id, hotstuff.blockcontent(c.blockchain.blocks[qc.hash]))))
 
 //@ func (*Authority).findHighestValidQC property C02,C10,C20
 //@   requires awf(c) && hotstuff.genesisBlock != nil
